@@ -117,8 +117,20 @@ func NewHTTPStoreCache(key []byte, store store.Store) *httpCache {
 
 // Get get http cache
 func (hc *httpCache) Get() (status Status, response *HTTPResponse) {
+	status, response, _ = hc.GetWithAge()
+	return
+}
+
+// GetWithAge get http cache and the age of response.
+// The age is calculated with the same time as the hit decision,
+// so it never exceeds the ttl of cache.
+func (hc *httpCache) GetWithAge() (status Status, response *HTTPResponse, age int) {
 	hc.mu.Lock()
-	status, done, response := hc.get()
+	now := nowUnix()
+	status, done, response := hc.get(now)
+	if status == StatusHit {
+		age = int(now - hc.createdAt)
+	}
 	hc.mu.Unlock()
 	// 如果done不为空，表示需要等待确认当前请求状态
 	if done != nil {
@@ -231,8 +243,7 @@ func (hc *httpCache) saveToStore() (err error) {
 	return hc.store.Set(hc.key, data, ttl)
 }
 
-func (hc *httpCache) get() (status Status, done chan waitResult, data *HTTPResponse) {
-	now := nowUnix()
+func (hc *httpCache) get(now int64) (status Status, done chan waitResult, data *HTTPResponse) {
 	// 如果首次创建并且设置store
 	if hc.status == StatusUnknown {
 		// 如果从缓存中读取失败，暂忽略出错信息
